@@ -845,3 +845,29 @@ Section Homogeneous.
     - rewrite !outdoor_production_off by exact Ha. ring.
   Qed.
 End Homogeneous.
+
+(* ---------------------------------------------------------------- greenhouse crops *)
+Lemma gh_per_ha_length : forall pw c g, List.length (gh_kcals_per_ha_grown pw c g) = cN c.
+Proof. intros. unfold gh_kcals_per_ha_grown. cbv zeta. apply tab_length. Qed.
+
+Lemma greenhouse_kcals_length : forall pw c g, (gadd g = true -> 42 <= cN c)%nat ->
+  List.length (greenhouse_kcals pw c g) = cN c.
+Proof.
+  intros pw c g H. unfold greenhouse_kcals. destruct (Qeq_bool (gfrac g) 0); [apply rep_length|].
+  destruct (gadd g) eqn:E; [|apply rep_length].
+  rewrite map2_length, map_length, gh_per_ha_length, greenhouse_area_length by (rewrite E; exact H).
+  apply Nat.min_id.
+Qed.
+
+(* greenhouse crops = mean monthly yield per hectare x climate ratio (relocated) x (1 + gain) x both wastes x area *)
+Lemma greenhouse_kcals_nth : forall pw c g m, gadd g = true -> ~ gfrac g == 0 -> (42 <= cN c)%nat -> (m < cN c)%nat ->
+  nthq (greenhouse_kcals pw c g) m ==
+  (1 - cwd c / 100) * (1 - cwr c / 100) * (qsum (months_cycle c) / 12 / total_crop_area g
+     * relocated pw (eff_exp c) (nthq (reductions c) m)) * (1 + ggain g / 100) * nthq (greenhouse_area (cN c) g) m.
+Proof.
+  intros pw c g m Hg Hf HN Hm. unfold greenhouse_kcals.
+  destruct (Qeq_bool (gfrac g) 0) eqn:E; [apply Qeq_bool_iff in E; contradiction|]. rewrite Hg.
+  rewrite map2_nth by (rewrite ?map_length, ?gh_per_ha_length, ?greenhouse_area_length; try exact Hm; intros; exact HN).
+  rewrite nthq_map by (rewrite gh_per_ha_length; exact Hm).
+  unfold gh_kcals_per_ha_grown. cbv zeta. rewrite tab_nth by exact Hm. rewrite !Qred_correct. ring.
+Qed.
